@@ -5,10 +5,10 @@ from checks import _numtostr as N
 
 META = {
     "property_id": "C11",
-    "technique": "round trip executed on the real code (NumberToString(17|9) then StringToNumber, bits in = bits out) over boundary sets and uniform bit patterns, all 2^32 floats in the thorough tier; the formatter half is cross-checked against the Lean model and an exact-rational reference reading (IEEE 754 round-half-even of the decimal value); Lean theorems: the formatter half in full (17/9-digit text = reference text for every bit pattern; 17/9 correctly rounded digits identify the value), the decomposition, integers below 2^53 through the real parser model, and for doubles the whole round trip through the real parser model (roundtrip17); for floats the parser half is tested",
+    "technique": "round trip executed on the real code (NumberToString(17|9) then StringToNumber, bits in = bits out) over boundary sets and uniform bit patterns, all 2^32 floats in the thorough tier; the formatter half is cross-checked against the Lean model and an exact-rational reference reading (IEEE 754 round-half-even of the decimal value); Lean theorems: the formatter half in full (17/9-digit text = reference text for every bit pattern; 17/9 correctly rounded digits identify the value), the decomposition, integers below 2^53 through the real parser model, and the whole round trip through the real parser model for doubles (roundtrip17) and floats (roundtrip9)",
     "level": "exploration",
     "design_ref": "DESIGN.md §6 C11, notes/design-numtostr.md",
-    "text": "Proved (kernel-checked): the formatter half in full (identifies17 / identifies9: no fault, text = reference %.17g / %.9g text, which read exactly and rounded to nearest-even is the original bits), and for DOUBLES the whole property through the real parser model: roundtrip17 : RoundTrip17 parseDouble - for every finite double NumberToString(17) raises no fault and StringToNumber plus the callers' conversion returns the original bits (parsesExactly17: shape and 1/32-ulp margin of every %.17g text - shape17_format, marginText_format, text17_format - and the parser-side theorem parse_exact17 of the StrToNum area, which covers every mantissa: analytic error bound above a width threshold, a kernel-evaluated table of 16 996 (mantissa, exponent) pairs below it). Three numerals, 1e-273, 1e-286, 1e-292, are parsed one ulp low although 0.04-0.07 ulp from the tie (within C09's one-ulp bound); they are not %.17g outputs (exc_bits: the nearest doubles print as 1.0000000000000001e-273, ...). NOT proved: floats (reduced by roundtrip9_of_close to ParsesClose9, open). For floats the verdict of a run rests on executing the round trip on the real code; for doubles the executed round trip is a second line: quick = boundary sets (powers of two and ten +-2 ulp, every binade, subnormals, short mantissas, short decimals) and 200k uniform doubles under ASan/UBSan plus 3.2M uniform doubles and 16M floats unsanitized; thorough = 24M doubles and all 2^32 float bit patterns (exhaustive, unsanitized -O2 build).",
+    "text": "Proved (kernel-checked): the formatter half in full (identifies17 / identifies9: no fault, text = reference %.17g / %.9g text, which read exactly and rounded to nearest-even is the original bits), and for DOUBLES the whole property through the real parser model: roundtrip17 : RoundTrip17 parseDouble - for every finite double NumberToString(17) raises no fault and StringToNumber plus the callers' conversion returns the original bits (parsesExactly17: shape and 1/32-ulp margin of every %.17g text - shape17_format, marginText_format, text17_format - and the parser-side theorem parse_exact17 of the StrToNum area, which covers every mantissa: analytic error bound above a width threshold, a kernel-evaluated table of 16 996 (mantissa, exponent) pairs below it). Three numerals, 1e-273, 1e-286, 1e-292, are parsed one ulp low although 0.04-0.07 ulp from the tie (within C09's one-ulp bound); they are not %.17g outputs (exc_bits: the nearest doubles print as 1.0000000000000001e-273, ...). For FLOATS likewise: roundtrip9 : RoundTrip9 (parseDouble then float(double)) - every %.9g text is a Text17 (shape9_format), the parser is within one double ulp of the correctly rounded double on every such text for every mantissa (parse_close17), which is below 1/64 float ulp (close_value, parsesClose9), and that suffices (roundtrip9_of_close). Nothing of the statement is left open; what is trusted is the correspondence of the two Lean models with the C++ (tested) and the callers' conversions (double(integer), float(double)) taken as IEEE round-to-nearest-even. The executed round trip is the second line: quick = boundary sets (powers of two and ten +-2 ulp, every binade, subnormals, short mantissas, short decimals) and 200k uniform doubles under ASan/UBSan plus 3.2M uniform doubles and 16M floats unsanitized; thorough = 24M doubles and all 2^32 float bit patterns (exhaustive, unsanitized -O2 build).",
     "note": "Testing, not proof, for everything except the listed theorems. Trusted: the harness, g++/libc for nothing but memcpy of bits; the Lean reference reading (FmtSpec.readBits) is used only to attribute a failure to the formatter or the parser half. The exhaustive float sweep runs on a non-sanitized -O2 build of the same headers.",
 }
 
@@ -39,10 +39,11 @@ THEOREMS = [
     "Qentem.Props.C11.parsesExactly17",
     "Qentem.Props.C11.roundtrip17",
     "Qentem.Props.C11.roundtrip9_of_close",
+    "Qentem.Props.C11.parsesClose9",
+    "Qentem.Props.C11.roundtrip9",
     "Qentem.Props.C11.identifies_boundary_instances",
 ]
 OPEN = [
-    "Qentem.Props.C11.RoundTrip9 (float -> %.9g -> StringToNumber (double) -> float(double)): reduced by roundtrip9_of_close to ParsesClose9: the parser's double lies within 1/64 float ulp of the 9-digit text's value (no correct rounding needed: a 9-digit decimal can sit arbitrarily close to a double rounding boundary, so the margin route of the double case does not apply); ParsesClose9 for parseDouble is open (StrToNum area: a no-margin 'within a few double ulps' bound suffices)",
 ]
 
 
@@ -156,7 +157,7 @@ def run(ctx):
               tested["--rt-floats"], tested["--rt-floats"])
     ctx.cov["value_distribution"] = dist
     ctx.assumptions += ["a parsed Natural/Integer result is converted to double as the library's Value/JSON layers do; a float is obtained by (float)double"]
-    ctx.notes += ["level: exploration - proved: formatter half (identifies17/9) and the whole double round trip through the real parser model (roundtrip17); tested: all floats (%.9g: reduced to ParsesClose9)"]
+    ctx.notes += ["level: exploration - proved: formatter half (identifies17/9) and the whole round trip through the real parser model for doubles (roundtrip17) and floats (roundtrip9); the executed round trips test the model correspondence"]
 
 
 FINISH = dict(level="exploration",
